@@ -13,9 +13,11 @@ import (
 	"strings"
 
 	"github.com/db47h/decimal"
+	"github.com/db47h/decimal/context"
 )
 
 type prog struct {
+	ctx   *context.Context
 	pid   string
 	vars  []*decimal.Decimal
 	ops   [][]string
@@ -97,10 +99,59 @@ func execOp(p *prog, t []string) (outcome string, res []string) {
 				return
 			}
 			outcome = "crash"
-			res = []string{fmt.Sprintf("#%v", e)}
+			res = []string{"#" + strings.NewReplacer(" ", "_", "|", "/").Replace(fmt.Sprint(e))}
 		}
 	}()
 	v := func(s string) *decimal.Decimal { return p.vars[atoi(s)] }
+	if p.ctx != nil && len(t[0]) > 1 && t[0][0] == 'C' && t[0] != "Cmp" && t[0] != "Copy" {
+		c := p.ctx
+		switch t[0] {
+		case "CAdd":
+			c.Add(v(t[1]), v(t[2]), v(t[3]))
+		case "CSub":
+			c.Sub(v(t[1]), v(t[2]), v(t[3]))
+		case "CMul":
+			c.Mul(v(t[1]), v(t[2]), v(t[3]))
+		case "CQuo":
+			c.Quo(v(t[1]), v(t[2]), v(t[3]))
+		case "CFMA":
+			c.FMA(v(t[1]), v(t[2]), v(t[3]), v(t[4]))
+		case "CNeg":
+			c.Neg(v(t[1]), v(t[2]))
+		case "CAbs":
+			c.Abs(v(t[1]), v(t[2]))
+		case "CSet":
+			c.Set(v(t[1]), v(t[2]))
+		case "CErr":
+			err := c.Err()
+			if err == nil {
+				res = append(res, "0")
+			} else if _, ok := err.(decimal.ErrNaN); ok {
+				res = append(res, "1")
+			} else {
+				res = append(res, "2")
+			}
+		case "CSetPrec":
+			c.SetPrec(uint(atou(t[1])))
+		case "CSetMode":
+			c.SetMode(decimal.RoundingMode(atoi(t[1])))
+		case "CNew":
+			p.vars[atoi(t[1])] = c.New()
+		case "CNewInt64":
+			n, err := strconv.ParseInt(t[2], 10, 64)
+			if err != nil {
+				panic("bad int64")
+			}
+			p.vars[atoi(t[1])] = c.NewInt64(n)
+		case "CNewUint64":
+			p.vars[atoi(t[1])] = c.NewUint64(atou(t[2]))
+		case "CNilOperand":
+			c.Add(v(t[1]), nil, v(t[1]))
+		default:
+			panic("unknown context op " + t[0])
+		}
+		return
+	}
 	switch t[0] {
 	case "Cmp":
 		res = append(res, strconv.Itoa(v(t[1]).Cmp(v(t[2]))))
@@ -270,6 +321,9 @@ func processLine(line string, w *bufio.Writer) {
 			p.vars = append(p.vars, parseVar(t[1:]))
 		case "O":
 			p.ops = append(p.ops, t[1:])
+		case "C":
+			c := context.New(uint(atou(t[1])), decimal.RoundingMode(atoi(t[2])))
+			p.ctx = &c
 		default:
 			panic("bad item " + it)
 		}
@@ -288,7 +342,7 @@ func processLine(line string, w *bufio.Writer) {
 		}
 		w.WriteString(b.String())
 		w.WriteByte('\n')
-		if outcome == "crash" {
+		if outcome == "crash" && p.ctx == nil {
 			break
 		}
 	}
